@@ -1,6 +1,6 @@
 /-
 Conservation of requests in the UTXO scanner model: every request that entered is, at every moment, in exactly one of
-queue / next batch / lost / reporter / delivered.  Stated by counting (`List.count`), converted to `List.Perm` at the end.
+queue / next batch / reporter / delivered.  Stated by counting (`List.count`), converted to `List.Perm` at the end.
 -/
 import Neutrino.Lemmas.Utxo
 namespace Neutrino.Utxo
@@ -9,7 +9,7 @@ def entReqs (ents : List Entry) : List Req := ents.flatMap (·.reqs)
 
 /-- every place a request can be -/
 def holds (st : St) : List Req :=
-  st.pq ++ st.next ++ st.lost ++ entReqs st.ents ++ st.out.map (·.req)
+  st.pq ++ st.next ++ entReqs st.ents ++ st.out.map (·.req)
 
 def Step.st : Step → St
   | .cont s => s
@@ -40,6 +40,9 @@ theorem failAll_req (er : Err) (u : Nat) : ∀ ents : List Entry, (failAll ents 
     have ih := failAll_req er u es
     simp only [failAll, List.flatMap_cons, List.map_append, entReqs_cons] at ih ⊢
     rw [ih, map_req_mk]
+
+theorem failNew_req (er : Err) (u : Nat) (new : List Req) : (failNew new er u).map (·.req) = new :=
+  map_req_mk (.err er) u new
 
 theorem count_filter_ite (p : Req → Bool) (q : Req) (l : List Req) :
     List.count q (l.filter p) = if p q = true then List.count q l else 0 := by
@@ -117,13 +120,13 @@ theorem fetchStep_cons (w : World) (init : List Req) (h : Nat) (st : St) (new : 
     Cons w init (fetchStep w h st new).st := by
   apply fetchStep_cases w h st new (fun s => Cons w init s.st)
   · intro _ q
-    show List.count q (holds ((stLostQ st new).fail _ _)) = List.count q (init ++ arrived w st.k)
+    show List.count q (holds ((stFailQ h st new).fail _ _)) = List.count q (init ++ arrived w st.k)
     rw [count_holds_fail, ← hp q]
-    simp only [holds, stLostQ, List.count_append]; omega
+    simp only [holds, stFailQ, List.count_append, List.map_append, failNew_req]; omega
   · intro _ _ q
-    show List.count q (holds ((stLostB h st new).fail _ _)) = List.count q (init ++ arrived w st.k)
+    show List.count q (holds ((stFailB h st new).fail _ _)) = List.count q (init ++ arrived w st.k)
     rw [count_holds_fail, ← hp q]
-    simp only [holds, stLostB, List.count_append]; omega
+    simp only [holds, stFailB, List.count_append, List.map_append, failNew_req]; omega
   · intro _ _ q
     show List.count q (holds (stFetched w h st new)) = List.count q (init ++ arrived w st.k)
     rw [← hp q]
@@ -359,35 +362,6 @@ theorem run_cons (w : World) (sf mf : Nat) (init : List Req) : Cons w init (run 
 
 theorem Cons.perm {w : World} {init : List Req} {st : St} (hc : Cons w init st) :
     (holds st).Perm (init ++ arrived w st.k) := List.perm_iff_count.2 hc
-
-/-! ### no loss without `Stop` and block-fetch failures -/
-
-def NoLoss (st : St) : Prop := st.quit = false ∧ st.lost = []
-
-theorem fetchStep_noLoss (w : World) (hb : ∀ k, w.blockErr k = false) (h : Nat) (st : St) (new : List Req)
-    (hi : NoLoss st) : NoLoss (fetchStep w h st new).st := by
-  apply fetchStep_cases w h st new (fun s => NoLoss s.st)
-  · intro hq; rw [hi.1] at hq; cases hq
-  · intro _ hbe; rw [hb] at hbe; cases hbe
-  · intro _ _; exact hi
-
-theorem stepH_noLoss (w : World) (hb : ∀ k, w.blockErr k = false) (hs : ∀ k, w.stopAt k = false)
-    (h : Nat) (st : St) (hi : NoLoss st) : NoLoss (stepH w h st).st := by
-  apply stepH_cases w h st (fun s => NoLoss s.st)
-  · intro _; exact hi
-  · intro _ _; exact ⟨hs _, hi.2⟩
-  · intro _ _ _; exact ⟨hs _, hi.2⟩
-  · intro _ _ _; exact ⟨hs _, hi.2⟩
-  · intro _ _; exact fetchStep_noLoss w hb h (st3 w h st) [] ⟨hs _, hi.2⟩
-  · intro _; exact fetchStep_noLoss w hb h (st2 w h st) (newAt w h st) ⟨hs _, hi.2⟩
-
-theorem run_noLoss (w : World) (hb : ∀ k, w.blockErr k = false) (hs : ∀ k, w.stopAt k = false)
-    (sf mf : Nat) (init : List Req) : NoLoss (run w sf mf init).2 := by
-  apply mgr_inv w sf NoLoss _ _ _ mf _ ⟨rfl, rfl⟩ rfl
-  · intro st hi; exact hi
-  · intro st hi; exact hi
-  · intro fuel h e st hi _ _
-    exact scan_inv w NoLoss (fun h st => stepH_noLoss w hb hs h st) (fun _ _ hi => hi) fuel h e st hi
 
 /-! ### the spin status -/
 
